@@ -165,7 +165,7 @@ SPEC = {
     ],
     "assumptions": [
         "latency awareness is not modelled and never enabled",
-        "liveness is a snapshot for kind P and for all theorems except C05_two_reads_*; kind L changes the liveness of some nodes once, between the first and the second next() of one Plan",
+        "liveness is a snapshot for kind P and for all theorems except C05_two_reads_* and C05_reads_safe (any number of changes; proved, not tied); kind L changes the liveness of some nodes once, between the first and the second next() of one Plan",
         "model theorems assume a sorted ring (TokenRing::new) and one entry per datacenter in every NTS map; tokens may repeat",
         "shuffles, rotation indices and the choose index are oracles; shuffling on/off only selects the seed",
     ],
